@@ -245,7 +245,7 @@ class simplify_chained_calls(FuncADLNodeTransformer):
 
         captured_arg = func_f.args.args[0].arg
         captured_body = func_f.body
-        new_select = function_call("SelectMany", [captured_body, func_g])
+        new_select = function_call("SelectMany", [captured_body, self.visit(func_g)])
         new_select_lambda = lambda_build(captured_arg, new_select)
         new_select_many = function_call("SelectMany", [seq, new_select_lambda])
         return new_select_many
@@ -439,6 +439,23 @@ class simplify_chained_calls(FuncADLNodeTransformer):
             return self.select_method_call_on_first(call_node)
         else:
             return FuncADLNodeTransformer.visit_Call(self, call_node)
+
+    def visit_Lambda(self, node: ast.Lambda):
+        """Simplify the body of a lambda that is not being called. Its parameters are renamed
+        to fresh names first: an argument that is being substituted must not replace a
+        parameter of the same name, and names inside a substituted argument must not be
+        captured by this lambda.
+        """
+        a = node.args
+        if a.vararg or a.kwarg or a.kwonlyargs or a.posonlyargs or a.defaults or a.kw_defaults:
+            return self.generic_visit(node)
+
+        new_names = [(arg.arg, arg_name()) for arg in a.args]
+        with stack_frame(self._arg_stack):
+            for old, new in new_names:
+                self._arg_stack.define_name(old, ast.Name(new, ast.Load()))
+            new_body = self.visit(node.body)
+        return lambda_build([new for _, new in new_names], new_body)
 
     def visit_Subscript_Tuple(self, v: ast.Tuple, s: ast.Constant):
         """
